@@ -11,7 +11,7 @@ PROP = 'C13'
 COQ_HEADER = 'From FV Require Import Model.C13_Model.'
 COQ_AGREE = 'C13_agree'
 COQ_MODEL_TARGETS = ['Model/C13_Model']
-RULE = ('histories (sequential, forward/backward jumps, repeated rounds, restarts) over in-memory datasets of 1..8 clients '
+RULE = ('histories (sequential, forward/backward jumps, repeated rounds, restarts) over in-memory and SQLite datasets of 1..8 clients '
         'whose ids share prefixes and end in zero bytes, cohort sizes 1..number of clients, seeds incl. 0 and 2^32-1, '
         'rounds up to 300 in the model and up to 10^6 at property level; streaming sampler over fd.shuffled_clients '
         'with buffer sizes 1..n+3; non-trivial = at least one sample() call returned; distinct = distinct case JSON')
@@ -22,7 +22,7 @@ ASSUMPTIONS = ['client ids are distinct python bytes; id equality is bytes equal
                'cohort size between 0 and the number of clients; round numbers >= 0 for the seed-range theorem',
                'NumPy choice / randint contracts (section hypotheses of Props/C13.v)',
                'a JAX key is identified with its split path (round, index)']
-PARTIAL = ['SQLite-backed datasets are not exercised by this harness (C08 covers the equivalence of the FederatedData implementations)']
+PARTIAL = []
 CASE_TIMEOUT = 60
 
 M31 = 2 ** 31 - 1
@@ -79,7 +79,7 @@ def generate(tier, rng):
     yield {'kind': 'get', 'ids': _ids(nc, i % 3), 'n': rng.randrange(1, nc + 1),
            'seed': rng.choice([0, 1, 2 ** 32 - 1, rng.randrange(2 ** 32), rng.randrange(100)]),
            'start': rng.choice([0, 0, 1, rng.randrange(0, maxround)]),
-           'ops': _history(rng, kinds[i % len(kinds)], maxround)}
+           'ops': _history(rng, kinds[i % len(kinds)], maxround), 'fd': 'sqlite' if i % 4 == 3 else 'mem'}
   # every cohort size of one dataset, same seed / round: 1..nc
   for nc in (3, 6):
     for n in range(1, nc + 1):
@@ -88,7 +88,7 @@ def generate(tier, rng):
     nc = rng.choice([1, 2, 3, 5, 7])
     yield {'kind': 'stream', 'ids': _ids(nc, i % 3), 'n': rng.randrange(1, nc + 2), 'start': rng.choice([0, 1, 2, 3, 7]),
            'k': rng.randrange(1, 5), 'B': rng.choice([1, 2, 3, nc, nc + 3]), 'seed': rng.randrange(2 ** 31),
-           'src': rng.choice(['fd', 'fd', 'handmade'])}
+           'src': rng.choice(['fd', 'fd', 'handmade']), 'fd': 'sqlite' if i % 4 == 3 else 'mem'}
 
 
 # --------------------------------------------------------------------------
@@ -98,10 +98,21 @@ def _rows(k):
 
 
 def _fd(case):
+  """(federated data, ids in client_ids() order, cleanup)."""
   import fedjax
   ids = sorted(bytes(i) for i in case['ids'])
   data = {cid: {'x': np.array(_rows(k), dtype=np.int32)} for k, cid in enumerate(ids)}
-  return fedjax.InMemoryFederatedData(data), ids
+  if case.get('fd') == 'sqlite':
+    import os
+    import shutil
+    import tempfile
+    from fedjax.core import sqlite_federated_data as sq
+    d = tempfile.mkdtemp(prefix='verif_c13_')
+    path = os.path.join(d, 'fd.sqlite')
+    with sq.SQLiteFederatedDataBuilder(path) as b:
+      b.add_many([(cid, data[cid]) for cid in ids])
+    return sq.SQLiteFederatedData.new(path), ids, lambda: shutil.rmtree(d, ignore_errors=True)
+  return fedjax.InMemoryFederatedData(data), ids, lambda: None
 
 
 def _key_table(rounds, n):
@@ -126,9 +137,17 @@ def _clients(out):
 
 
 def run(case):
-  import fedjax
+  fd, ids, cleanup = _fd(case)
+  try:
+    if list(fd.client_ids()) != ids:
+      raise RuntimeError('client_ids() is not the sorted id list')
+    return _run(case, fd, ids)
+  finally:
+    cleanup()
+
+
+def _run(case, fd, ids):
   from fedjax.core import client_samplers as cs
-  fd, ids = _fd(case)
   n = case['n']
   if case['kind'] == 'get':
     seed = case['seed']
@@ -311,7 +330,7 @@ def nontrivial(case, obs):
 
 
 def describe(case, obs):
-  d = {'kind': case['kind'], 'clients': len(case['ids']), 'cohort': 'all' if case['n'] >= len(case['ids']) else 'one' if case['n'] == 1 else 'some',
+  d = {'kind': case['kind'], 'fd': case.get('fd', 'mem'), 'clients': len(case['ids']), 'cohort': 'all' if case['n'] >= len(case['ids']) else 'one' if case['n'] == 1 else 'some',
        'trailing_zero_ids': sum(1 for i in case['ids'] if i and i[-1] == 0) > 0}
   if case['kind'] == 'get':
     rs = obs['rounds']
